@@ -128,7 +128,9 @@ def contracts(reg):
         h = a[0]
         n = h.shape[0]
         ex.used_models.add("assume:numpy.linalg.eig returns a real spectrum and real eigenvectors (diagonalisable rate matrix with real eigenvalues)")
-        return (SymArr((n,), "real", name="eigvals"), SymArr((n, n), "real", name="eigvecs"))
+        out = (SymArr((n,), "real", name="eigvals"), SymArr((n, n), "real", name="eigvecs"))
+        ex.eig_outputs = (out[0].snapshot(), out[1].snapshot())      # ghost: what the decomposition returned
+        return out
 
     def inv_with_facts(ex, a, k, l):
         r = _orig_inv.fn(ex, a, k, l)
@@ -153,6 +155,13 @@ def contracts(reg):
         T["numpy.linalg.inv"] = Builtin("numpy.linalg.inv", inv_with_facts)
         return dict(self=pp, timeaxis=sub, corrections=-1, exact=False, N=n, nt=nt, step=sub.fields["step"],
                     shift=V.arith("-", sub.fields["start"], s0))
+    def ghost_eig(S, env):
+        eo = getattr(S.ex, "eig_outputs", None)
+        if eo is not None:
+            env["eig_Kd"], env["eig_SS"] = eo
+    USED = ("spectrum-and-eigenvectors-used-as-returned-by-the-decomposition",
+            "forall(c, range(0, N), local_Kd[c] == eig_Kd[c]) and "
+            "forall((a, c), (range(0, N), range(0, N)), local_SS[a,c] == eig_SS[a,c])")
     ESTEP = "exp({kd}[c]*step)"
     FORM = "Sum(c, range(0, N), {ss}[a,c]*({e0}*pw(%s, {k}))*{s1}[c,b])" % ESTEP
     loc = dict(ss="local_SS", s1="local_S1", kd="local_Kd")
@@ -173,23 +182,23 @@ def contracts(reg):
                         use_post=[compose("pre(U)[:,:,_i-1]", "lambda c: (%s)*pw(exp(Kd[c]*step), %s + _i - 1)" % (e0, off))])}
     ALL = "forall((a, b, k), (range(0, N), range(0, N), range(0, nt)), result[a,b,k] == %s)"
     reg.add(Contract(
-        PP + "PopulationPropagator.get_PropagationMatrix#same-start", setup=lambda S: setup_pm(S, True),
+        PP + "PopulationPropagator.get_PropagationMatrix#same-start", setup=lambda S: setup_pm(S, True), ghost=ghost_eig,
         requires=["N >= 1", "nt >= 1"],
-        ensures=[("spectral-exponential-at-every-time-of-the-sub-axis", ALL % FORM.format(e0="1", k="0 + k", **loc))],
+        ensures=[USED, ("spectral-exponential-at-every-time-of-the-sub-axis", ALL % FORM.format(e0="1", k="0 + k", **loc))],
         loops=pm_loops("1"), expose_locals=["SS", "S1", "Kd"]))
     reg.add(Contract(
-        PP + "PopulationPropagator.get_PropagationMatrix#start-shifted-by-whole-steps", setup=lambda S: setup_pm(S, False),
+        PP + "PopulationPropagator.get_PropagationMatrix#start-shifted-by-whole-steps", setup=lambda S: setup_pm(S, False), ghost=ghost_eig,
         requires=["N >= 1", "nt >= 1", "shift > 0", "step > 0",
                   ("shift-is-a-whole-number-of-steps", "exists(q, ints, q >= 1 and shift == q*step and shift/step == q)")],
-        ensures=[("whole-steps-counted-exactly", "local_Ns*step == shift"),
+        ensures=[USED, ("whole-steps-counted-exactly", "local_Ns*step == shift"),
                  ("spectral-exponential-at-every-time-of-the-sub-axis",
                   ALL % FORM.format(e0="1", k="local_Ns + k", **loc))],
         loops=pm_loops("1", off="Ns"), expose_locals=["SS", "S1", "Kd", "Ns"]))
     reg.add(Contract(
-        PP + "PopulationPropagator.get_PropagationMatrix#start-shifted-otherwise", setup=lambda S: setup_pm(S, False),
+        PP + "PopulationPropagator.get_PropagationMatrix#start-shifted-otherwise", setup=lambda S: setup_pm(S, False), ghost=ghost_eig,
         requires=["N >= 1", "nt >= 1", "shift > 0", "step > 0",
                   ("shift-is-not-a-whole-number-of-steps", "forall(q, ints, shift != q*step)")],
-        ensures=[("spectral-exponential-at-every-time-of-the-sub-axis",
+        ensures=[USED, ("spectral-exponential-at-every-time-of-the-sub-axis",
                   ALL % FORM.format(e0="exp(local_Kd[c]*shift)", k="0 + k", **loc))],
         loops=pm_loops("exp(Kd[c]*shift)"), expose_locals=["SS", "S1", "Kd"]))
 
